@@ -53,6 +53,30 @@ Theorem C01_no_wedge_full : forall (c : cfg) (h : list item),
 Proof. exact no_wedge_crash_free. Qed.
 Print Assumptions C01_no_wedge_full.
 
+(* (3) FULL.  What the node EXPOSES.  [served st n] is what a reader of the node's store gets at height n
+   (GetBlockData / GetHeader for the signed header and data, GetSignature for the signature record): the
+   record of the latest SaveBlockData for n.  After every crash-free history — hence at every instant
+   between two actions of a run, also after failed and skipped steps —
+   (a) every committed height n serves a block of height n whose header signature verifies under the
+       configured signer's key over that very header, equals the signature record, names the configured
+       signer, and passes ValidateBasic ([served_signed]);
+   (b) the only record above the committed heights is the pending block at height+1 (early-saved, not yet
+       signed by this step): signing it yields a block that validates against the node's state, so the retry
+       commits it;
+   (c) nothing is served above the pending height.
+   The harness compares (a)-(c) with the real store object the Manager runs on after EVERY item
+   (Check/ProducerCheck.v [ob_tip]) and at the end for every height ([pc_blocks]). *)
+Theorem C01_served_full : forall (c : cfg) (h : list item),
+  wf_cfg c -> crash_free h = true ->
+  let st := run c h in let H := g_height (img_of st) in
+  (forall n, c_initial c <= n -> n <= H ->
+     exists b, served st n = Some b /\ h_height (hdr_of b) = n /\ served_signed c b) /\
+  (forall v b, vol_of st = Some v -> served st (H + 1) = Some b ->
+     validate (v_state v) (b_sh (final_block c b)) (b_data (final_block c b)) = true) /\
+  (forall n, H + 1 < n -> c_initial c < n -> served st n = None).
+Proof. exact served_crash_free. Qed.
+Print Assumptions C01_served_full.
+
 (* ---- non-vacuity: a concrete history meeting every hypothesis: initial height 5, a failed first start,
    the genesis block, a two-transaction block, an empty block with an EQUAL timestamp, a transient
    sequencer error, an absent batch, a non-empty batch with a regressed timestamp (refused), an
@@ -97,3 +121,20 @@ Example before_the_repair_F1 :
   map o_res (outputs f1_cfg f1_history) = [OBootOk; OCommitted 1; OCommitted 2; OSkipped; OCommitted 3]
   /\ g_block (img_of (run f1_cfg (firstn 4 f1_history))) 3 = None.
 Proof. vm_compute. repeat split. Qed.
+
+(* the window between the early and the final save of a block, on [ex_history]: after the failed execution
+   of height 8 (item 9) the store serves at 8 the early-saved block — header signature = the signature of
+   block 7, empty signature record, ValidateBasic fails — and height 8 is NOT committed; after the retry
+   (item 10) the same height serves the block signed over its own header, with an equal signature record *)
+Example ex_served_window :
+  let before := run ex_cfg (firstn 9 ex_history) in
+  let after := run ex_cfg ex_history in
+  g_height (img_of before) = 7 /\
+  option_map (fun b => (sh_sig (b_sh b), b_sig b, validate_basic (b_sh b))) (served before 8)
+    = option_map (fun p => (b_sig p, SigEmpty, false)) (served before 7) /\
+  g_height (img_of after) = 8 /\
+  option_map (fun b => (sh_sig (b_sh b), b_sig b, validate_basic (b_sh b))) (served after 8)
+    = option_map (fun b => (Sig 7 (hdr_of b), Sig 7 (hdr_of b), true)) (served after 8) /\
+  option_map hdr_of (served after 8) = option_map hdr_of (served before 8) /\
+  served after 8 <> None /\ served after 9 = None.
+Proof. vm_compute. repeat split. discriminate. Qed.
